@@ -9,6 +9,8 @@ import Drv.Comment
 import Drv.Loads
 import Drv.Imports
 import Drv.AdapterC19
+import Drv.XTypes
+import Drv.TypeMatch
 /-!
 Line-protocol driver: one operation per line on stdin, one canonical answer line on stdout.
 Every engine exports `handle : List String → Option String` answering only its own ops;
@@ -27,7 +29,9 @@ def handlers : List (List String → Option String) := [
   Drv.Comment.handle,
   Drv.Loads.handle,
   Drv.Imports.handle,
-  Drv.AdapterC19.handle
+  Drv.AdapterC19.handle,
+  Drv.XT.handle,
+  Drv.TM.handle
 ]
 
 def dispatch (fs : List String) : Option String :=
